@@ -20,7 +20,9 @@
 (* connecting command repairs the persisted flags (Resync).                *)
 (***************************************************************************)
 EXTENDS Naturals, Sequences
-CONSTANT MaxLost
+CONSTANTS MaxLost,
+          PersistSynced    \* TRUE: as the code has it - close_service stores the connect-time synchronised flags even when the
+                           \* command was refused; FALSE: a twin that stores nothing on a refusal (must lose Recoverable)
 Flag == [cc : BOOLEAN, cu : BOOLEAN, kc : BOOLEAN, de : BOOLEAN, du : BOOLEAN]
 NoFlags == [cc |-> FALSE, cu |-> FALSE, kc |-> FALSE, de |-> FALSE, du |-> FALSE]
 VARIABLES disk, created, keyVer, edbVer, edbLocal, st, lost
@@ -58,7 +60,7 @@ UpConfig(out, echoLost) ==
             THEN /\ out = "noecho" /\ lost' = lost + 1 /\ disk' = m          \* echo never arrives: cu stays FALSE in memory; close persists m
             ELSE /\ out = "ok" /\ lost' = lost /\ disk' = [m EXCEPT !.cu = TRUE]
          /\ UNCHANGED <<created, keyVer, edbVer, edbLocal>>
-    ELSE /\ out = "refused" /\ disk' = (IF created THEN m ELSE disk)          \* close_service still stores the synced flags
+    ELSE /\ out = "refused" /\ disk' = (IF created /\ PersistSynced THEN m ELSE disk)          \* close_service still stores the synced flags
          /\ UNCHANGED <<created, keyVer, edbVer, edbLocal, st, lost>>
 UpIndex(out, echoLost) ==
     LET m == Synced(disk) IN
@@ -68,18 +70,36 @@ UpIndex(out, echoLost) ==
             THEN /\ out = "noecho" /\ lost' = lost + 1 /\ disk' = m /\ edbLocal' = edbLocal
             ELSE /\ out = "ok" /\ lost' = lost /\ disk' = [m EXCEPT !.du = TRUE] /\ edbLocal' = FALSE   \* local copy deleted after the flag is stored
          /\ UNCHANGED <<created, keyVer, edbVer>>
-    ELSE /\ out = "refused" /\ disk' = (IF created THEN m ELSE disk)
+    ELSE /\ out = "refused" /\ disk' = (IF created /\ PersistSynced THEN m ELSE disk)
          /\ UNCHANGED <<created, keyVer, edbVer, edbLocal, st, lost>>
 Search(out, correct) ==
     LET m == Synced(disk) IN
     /\ IF m.du THEN out = "ok" /\ correct = (edbVer = keyVer) ELSE out = "refused" /\ correct = FALSE
-    /\ disk' = (IF created THEN m ELSE disk)
+    /\ disk' = (IF created /\ (PersistSynced \/ out = "ok") THEN m ELSE disk)
     /\ UNCHANGED <<created, keyVer, edbVer, edbLocal, st, lost>>
 
 Next == \/ \E o \in {"ok", "refused"} : Create(o) \/ GenKey(o) \/ Encrypt(o)
         \/ \E o \in {"ok", "refused", "noecho"}, e \in BOOLEAN : UpConfig(o, e) \/ UpIndex(o, e)
         \/ \E o \in {"ok", "refused"}, c \in BOOLEAN : Search(o, c)
 Spec == Init /\ [][Next]_ivars
+
+(* ---- the documented workflow as a goal-directed driver: the user looks at what the client reports (the persisted flags)  ---- *)
+(* ---- and issues the next command of the README; a command that ends in an error or a time-out is simply issued again    ---- *)
+DriverNext ==
+    IF ~disk.cc THEN \E o \in {"ok", "refused"} : Create(o)
+    ELSE IF ~disk.kc THEN \E o \in {"ok", "refused"} : GenKey(o)
+    ELSE IF ~disk.de /\ ~disk.du THEN \E o \in {"ok", "refused"} : Encrypt(o)
+    ELSE IF ~disk.cu THEN \E o \in {"ok", "refused", "noecho"}, e \in BOOLEAN : UpConfig(o, e)
+    ELSE IF ~disk.du THEN \E o \in {"ok", "refused", "noecho"}, e \in BOOLEAN : UpIndex(o, e)
+    ELSE \E o \in {"ok", "refused"}, c \in BOOLEAN : Search(o, c)
+DriverSpec == Init /\ [][DriverNext]_ivars /\ WF_ivars(DriverNext)
+(* whatever echoes are lost on the way (at most MaxLost), the workflow ends in a service whose searches are answered from an  *)
+(* index built with the one key, and stays there                                                                             *)
+Goal == st = 2 /\ disk.du /\ disk.cu /\ edbVer = keyVer /\ keyVer = 1
+Recoverable == <>[]Goal
+(* the driver never gets a refusal it cannot act on: a refused command changes what the client reports (the flags catch up),  *)
+(* except the very last state in which searches succeed                                                                       *)
+DriverProgress == [][DriverNext => (ivars' # ivars \/ Goal)]_ivars
 
 (* ---- refinement of the reference machine: cu / du are the server's view, the rest is the persisted view ---- *)
 SM == INSTANCE ClientSM WITH exists <- created, cc <- disk.cc, cu <- (st >= 1), kc <- disk.kc, de <- disk.de, du <- (st = 2),
